@@ -140,7 +140,7 @@ def run_driver(c, ch, name, test, rows_path, nrows, env, log):
         if os.path.exists(prog):
             os.unlink(prog)
         e = dict(env)
-        e.update({"VERIF_IN": rows_path, "VERIF_OUT": outp, "VERIF_PROGRESS": prog, "VERIF_START": start})
+        e.update({"VERIF_IN": rows_path, "VERIF_OUT": outp, "VERIF_PROGRESS": prog, "VERIF_START": start, "VERIF_TMP": c.scratch})
         res = c.go_test(ch["pkg"], ch["files"], ch["pkgname"], "^%s$" % test, env=e, timeout=3000, extra_overlays=ch["extra"])
         recs = []
         if os.path.exists(outp):
